@@ -92,6 +92,11 @@ def run(ctx):
             print(fen, "\n  impl:", o[0][:400], "\n  acceptor:", o2[0])
             if not o2[0].startswith("ok"):
                 ctx.violation("replay: acceptor still rejects", rp)
+            _, a, _ = vlib.run_lines(vh, [f"chess tmg {fen}"])
+            _, b, _ = vlib.run_lines(vlib.driver_bin(), [f"chess tmg {fen}"])
+            print("  MoveGen  :", a[0][:400], "\n  Lean model:", b[0][:400])
+            if a != b:
+                ctx.violation("replay: MoveGen and the Lean model of its algorithms still disagree", rp, no_input=True)
         return
     vlib.lean_obligations(ctx)
     ctx.assumptions += ["the rules of chess are those of lean/TexelVerif/Chess/Spec.lean (trusted text, perft-validated)",
